@@ -4,6 +4,7 @@ IMPLEMENTATION's outputs. Cells are matched BY COORDINATE (adding the `bootstrap
 reorder slices), nothing here calls the model's `bootstrap` / `thin` / `momentMatch`.
 -/
 import Bermuda.Model.Resample
+import Bermuda.Model.ResampleATA
 namespace Bermuda.Spec.C17
 open Bermuda Bermuda.Resample
 
@@ -143,5 +144,106 @@ def momentOk (t out : List Cell) (fields : List String) : Bool :=
          | some (.arr false [n'] r) => n' == n && rankOrderOk d r
          | _ => false)
       | _, _ => o.values.get? f == some v
+
+/-! ### maximum entropy: the arithmetic (`Model/ResampleME.lean`)
+
+`tol` is an ABSOLUTE slack (the harness passes 2^-40 × the magnitude of the series and its limits, because the
+implementation computes in float64); the theorems hold with `tol = 0`. -/
+
+def closeTo (tol a b : Rat) : Bool := decide (a - b ≤ tol) && decide (b - a ≤ tol)
+
+def closeLists (tol : Rat) (a b : List Rat) : Bool :=
+  a.length == b.length && (a.zip b).all fun p => closeTo tol p.1 p.2
+
+/-- every value lies in one of the `n` mean-preserving (shifted) intervals of the construction -/
+def meIntervalsOk (xs : List Rat) (L : Option (Rat × Rat)) (tol : Rat) (r : List Rat) : Bool :=
+  let sx := sortQ xs
+  let lim := meLimits xs L
+  let ivs := (List.range xs.length).map fun i => (y0At sx lim.1 lim.2 i, y1At sx lim.1 lim.2 i)
+  r.all fun q => ivs.any fun iv =>
+    (decide (iv.1 - tol ≤ q) && decide (q ≤ iv.2 + tol)) || (decide (iv.2 - tol ≤ q) && decide (q ≤ iv.1 + tol))
+
+/-- limits outside the data (`lo ≤ min x`, `max x ≤ hi`): every value lies in `[meLower, meUpper]` -/
+def meEnvelopeOk (xs : List Rat) (L : Option (Rat × Rat)) (tol : Rat) (r : List Rat) : Bool :=
+  let sx := sortQ xs
+  let lim := meLimits xs L
+  if decide (lim.1 ≤ sx.getD 0 0) && decide (sx.getD (xs.length - 1) 0 ≤ lim.2) then
+    r.all fun q => decide (meLower sx lim.1 lim.2 - tol ≤ q) && decide (q ≤ meUpper sx lim.1 lim.2 + tol)
+  else true
+
+/-- WITHIN THE LIMITS, as far as the construction guarantees it: when `limitsBind` (always without `L`) every
+value lies in `[lo, hi]` -/
+def meLimitsOk (xs : List Rat) (L : Option (Rat × Rat)) (tol : Rat) (r : List Rat) : Bool :=
+  let sx := sortQ xs
+  let lim := meLimits xs L
+  if limitsBind sx lim.1 lim.2 then r.all fun q => decide (lim.1 - tol ≤ q) && decide (q ≤ lim.2 + tol)
+  else true
+
+/-- the result is a rearrangement of the quantiles of the (sorted) draws -/
+def mePermOk (xs U : List Rat) (L : Option (Rat × Rat)) (tol : Rat) (r : List Rat) : Bool :=
+  match meQuantiles xs U L with
+  | .ok qs => closeLists tol (sortQ qs) (sortQ r)
+  | .error _ => true
+
+/-- … namely the one that carries the rank order of the source (ties by position) -/
+def meValueOk (xs U : List Rat) (L : Option (Rat × Rat)) (tol : Rat) (r : List Rat) : Bool :=
+  match meQuantiles xs U L with
+  | .ok qs => closeLists tol (reimposeRank xs qs) r
+  | .error _ => true
+
+/-! ### age-to-age: the chained product with the drawn positions (`Model/ResampleATA.lean`) -/
+
+def factorAt (F : Factors) (lag : Rat) (f : String) (pidx : Nat) : Option Rat :=
+  match assoc? F lag with
+  | none => none
+  | some tbl => match assoc? tbl f with
+    | none => none
+    | some arr => arr[pidx]?
+
+/-- one age-to-age slice `s` of the source, replicate `i`, index draws `I`: every cell after the first of its
+period carries, for a selected field, `None` when its own value is falsy, else the previous DEVELOPED value times
+`atas[lag][field][I[lag][field][period_idx]]`; unselected fields keep their value -/
+def chainOkSlice (s rep : List Cell) (i : Nat) (fields : List String) (I : IdxTable) : Bool :=
+  match resampledAtas s fields I with
+  | .error _ => true
+  | .ok F =>
+    s.all fun c =>
+      let row := s.filter fun d => (d.ps, d.pe) == (c.ps, c.pe) && d.devLag < c.devLag
+      match row.getLast?, repCell rep c i with
+      | none, _ => true
+      | _, none => false
+      | some prev, some o =>
+        match repCell rep prev i with
+        | none => false
+        | some po =>
+          c.values.all fun (f, v) =>
+            if fields.contains f && po.values.contains f then
+              if isFalsy (some v) then o.values.get? f == some .none
+              else
+                match num? (o.values.get? f), num? (po.values.get? f),
+                      factorAt F c.devLag f ((periodsOf s).idxOf (c.ps, c.pe)) with
+                | some x, some y, some r => x == y * r
+                | _, _, _ => false
+            else o.values.get? f == some v
+
+/-- identity draws (every period keeps its own factors): the replicate repeats the source, value by value
+(a falsy selected value after the first cell of its period reads `None`) -/
+def reproducesSlice (s rep : List Cell) (i : Nat) (fields : List String) : Bool :=
+  s.all fun c =>
+    let later := s.any fun d => (d.ps, d.pe) == (c.ps, c.pe) && d.devLag < c.devLag
+    match repCell rep c i with
+    | none => false
+    | some o =>
+      c.values.all fun (f, v) =>
+        if later && fields.contains f && isFalsy (some v) then o.values.get? f == some .none
+        else match num? (some v), num? (o.values.get? f) with
+          | some a, some b => a == b
+          | _, _ => o.values.get? f == some v
+
+/-! ### moment_match: what the sampler is asked for -/
+
+/-- mean, population variance and count handed to the sampler are the source array's -/
+def momentsOk (d : List Rat) (mean var : Rat) (n : Nat) (tolM tolV : Rat) : Bool :=
+  closeTo tolM (meanQ d) mean && closeTo tolV (varQ d) var && n == d.length
 
 end Bermuda.Spec.C17
